@@ -201,7 +201,8 @@ impl BlockDir {
         let bytes = self.get_block_content(&address.hash, monitor).await?;
         let len = address.len as usize;
         let start = address.start as usize;
-        let end = start + len;
+        // The address comes from the index: don't let a damaged one overflow.
+        let end = start.saturating_add(len);
         let actual_len = bytes.len();
         if end > actual_len {
             return Err(Error::BlockTooShort {
